@@ -17,7 +17,7 @@ ASSUMPTIONS = ["np.argsort returns some sorting permutation (checked per case in
 METHODS = {"holm-bonferroni": "Holm", "bonferroni": "Bonferroni", "benjamini-hochberg": "BH"}
 
 
-def cases(tier, rng, dist):
+def _cases(tier, rng, dist):
     grid = [Fraction(0), Fraction(1, 8), Fraction(1, 4), Fraction(1, 2), Fraction(1)]
     nmax = 4
     if tier == "thorough":
@@ -76,7 +76,7 @@ def textbook_big(p, m):
     return out
 
 
-def run(c):
+def _run(c):
     if c.get("big"):
         a = big_vector(c); a0 = a.copy()
         r = guarded(lambda: np.asarray(adjust_p(a, c["m"]), dtype=float), secs=120)
@@ -165,3 +165,26 @@ def generated(tier):
     """source-derived obligations (G4 formulas): regenerated from /repo's current source text on every run"""
     from ..translate.tables import obligations
     return obligations("C11")
+
+
+# ---- failure paths (round 12): every third case is preceded by calls that the library rejects, or that fail inside a user
+# callable; they raise on the unchanged tree and must leave nothing behind (common.fail_first) ----
+
+def failing_calls(c):
+    if c.get("big"):
+        return [("adjust_p(unknown method)", lambda: adjust_p(np.array([0.01, 0.04, 0.03]), "no-such-method"))]
+    a = interned(np.array([float(Fraction(x)) for x in c["p"]]))
+    return [("adjust_p(unknown method)", lambda: adjust_p(a, ["nonsense", "Holm", "bh", None][c["ff"] % 4])),
+            ("adjust_p(unknown method, list)", lambda: adjust_p([0.5, 0.01, 0.2], "hommel"))]
+
+
+def cases(tier, rng, dist):
+    return mark_ff(_cases(tier, rng, dist))
+
+
+def run(c):
+    ff = fail_first(failing_calls(c)) if "ff" in c else None
+    o = _run(c)
+    if ff is not None and isinstance(o, dict):
+        o["ff"] = ff
+    return o
